@@ -593,8 +593,7 @@ def get_binding_obligations(chk, I):
         kn, kv = _opt_parts(kw["varkwd"])
         chk.add(Ob(KEY, "exit::varkwd", pid, hy, z3.And(kn == z3.Not(sig.vk),
                                                           z3.Implies(sig.vk, kv == sig.unm(sig.iVK)))))
-    if n_exit == 0:
-        chk.errors.append(f"{func}: no exit path explored")
+    chk.add(Ob(KEY, "some-path-reaches-the-exit", "any", [], z3.BoolVal(n_exit > 0), {"exit_paths": n_exit}))
     chk.notes.append(f"_BINDING_CLS_MATRIX read from: {how}")
     return matrix
 
